@@ -17,16 +17,17 @@ def hook_discipline(cx, rule):
     n = 0
     for name in ("add_hook_catch", "add_hook_timeout", "add_hook_stmts"):
         for c in m.callers().get("%s::%s" % (TASK, name), []):
-            k = pa.root(c.fn, c.args[1])
-            key = k[2] if k[0] == "agg" else None
-            n += 1
-            if name in want:
-                ok = key in want[name]
-                txt = "`%s` registers under %s only (found %s in `%s`)" % (name, sorted(want[name]), key, c.fn.short)
-            else:
-                ok = key is not None and key not in forbidden_for_stmts
-                txt = "`add_hook_stmts` never registers under ErrorCatch/Timeout (found %s in `%s`)" % (key, c.fn.short)
-            cx.ob(rule, "hooks:%s:%s:%s" % (name, c.fn.short, key), ok, txt, c.loc)
+            from vlib.model import enum_const_cases
+            cases = enum_const_cases(c.fn, pa, c.args[1])
+            for key in (sorted({v for v, _ in cases}) if cases else [None]):
+                n += 1
+                if name in want:
+                    ok = key in want[name]
+                    txt = "`%s` registers under %s only (found %s in `%s`)" % (name, sorted(want[name]), key, c.fn.short)
+                else:
+                    ok = key is not None and key not in forbidden_for_stmts
+                    txt = "`add_hook_stmts` never registers under ErrorCatch/Timeout (found %s in `%s`)" % (key, c.fn.short)
+                cx.ob(rule, "hooks:%s:%s:%s" % (name, c.fn.short, key), ok, txt, c.loc)
     # the three adders build exactly their own kind of batch
     kinds = {"add_hook_catch": "Catch", "add_hook_timeout": "Timeout", "add_hook_stmts": "Statement"}
     for name, kind in kinds.items():
